@@ -6,18 +6,20 @@ From PM Require Import Model.Prelude Model.Domain Model.Constraint Model.BindAll
 
 (** What the engine needs from a binding map. [Inv] is an invariant of the maps
     that occur in a run, [goodb] the key lists on which retain_keys is lawful. *)
-Record Lawful {K V M H P} (D : DomOps K V M H P) (Inv : M -> Prop) (goodb : list K -> bool) : Prop := {
-  law_inv_empty : Inv (mempty D);
-  law_bind_inv : forall m k v m', Inv m -> mbind D m k v = Some m' -> Inv m';
+Record Lawful {K V M H P} (D : DomOps K V M H P) (Inv : H -> M -> Prop) (goodb : list K -> bool) : Prop := {
+  law_inv_empty : forall h, Inv h (mempty D);
+  (* binding a value the host offers keeps the invariant *)
+  law_bind_inv : forall h m k v vs m', Inv h m -> opts D h k m = Ok vs -> In v vs ->
+    mbind D m k v = Some m' -> Inv h m';
   law_bind_mono : forall m k v m', mbind D m k v = Some m' ->
     forall k' v', mget D m k' = Some v' -> mget D m' k' = Some v';
-  law_retain : forall ks m m', goodb ks = true -> Inv m -> mretain D ks m = Ok m' ->
-    Inv m' /\ forall k, In k ks -> mget D m' k = mget D m k;
+  law_retain : forall h ks m m', goodb ks = true -> Inv h m -> mretain D ks m = Ok m' ->
+    Inv h m' /\ forall k, In k ks -> mget D m' k = mget D m k;
 }.
 
 Section RunSound.
   Context {K V M H P : Type} (D : DomOps K V M H P) (E : DomEq D).
-  Variable Inv : M -> Prop.
+  Variable Inv : H -> M -> Prop.
   Variable goodb : list K -> bool.
   Variable atoms : constraint K P -> list (constraint K P).
   Hypothesis LAW : Lawful D Inv goodb.
@@ -74,7 +76,7 @@ Section RunSound.
   Qed.
 
   (** bind_all only extends *)
-  Lemma ext_rel_le h inc ks m m' : ext_rel D h inc ks m m' -> le m m' /\ (Inv m -> Inv m').
+  Lemma ext_rel_le h inc ks m m' : ext_rel D h inc ks m m' -> le m m' /\ (Inv h m -> Inv h m').
   Proof.
     induction 1 as [m|k ks m m' v G R IH|k ks m m' G O I R IH|k ks m m1 m' vs v G O Hin B R IH].
     - split; [apply le_refl|auto].
@@ -82,11 +84,11 @@ Section RunSound.
     - exact IH.
     - destruct IH as [L1 I1]. split.
       + eapply le_trans; [|exact L1]. intros k' v' G'. eapply (law_bind_mono D Inv goodb LAW); eauto.
-      + intros I. apply I1. eapply (law_bind_inv D Inv goodb LAW); eauto.
+      + intros I. apply I1. eapply (law_bind_inv D Inv goodb LAW h m k v vs); eauto.
   Qed.
 
   Lemma bind_all_le h m ks inc r m' :
-    bind_all D h m ks inc = Ok r -> In m' r -> le m m' /\ (Inv m -> Inv m').
+    bind_all D h m ks inc = Ok r -> In m' r -> le m m' /\ (Inv h m -> Inv h m').
   Proof.
     intros B Hin. apply bind_all_eq_spec in B.
     apply (extend_rel D h inc ks m r m' B) in Hin. now apply ext_rel_le in Hin.
@@ -121,10 +123,10 @@ Section RunSound.
   Qed.
 
   Definition item_ok (h : H) (it : N * M) : Prop :=
-    Inv (snd it) /\ forall f, In f (lab_get L (fst it)) -> holds h f (snd it).
+    Inv h (snd it) /\ forall f, In f (lab_get L (fst it)) -> holds h f (snd it).
 
   Definition match_ok (h : H) (pm : N * M) : Prop :=
-    exists cp, nth_error cs (N.to_nat (fst pm)) = Some cp /\ forall c, In c cp -> holds h c (snd pm).
+    Inv h (snd pm) /\ exists cp, nth_error cs (N.to_nat (fst pm)) = Some cp /\ forall c, In c cp -> holds h c (snd pm).
 
   Lemma rmapM_in {X Y} (f : X -> res Y) l r y :
     rmapM f l = Ok r -> In y r -> exists x, In x l /\ f x = Ok y.
@@ -179,7 +181,7 @@ Section RunSound.
     destruct (proj1 (rflatM_in _ _ _ _ N) Hin) as [b [ys [Hb [Hf Hy]]]].
     destruct (rmapM_in _ _ _ _ R Hb) as [m1 [Hm1 Rm]].
     destruct (bind_all_le _ _ _ _ _ _ B Hm1) as [L1 I1].
-    destruct (law_retain D Inv goodb LAW _ _ _ Gs (I1 I) Rm) as [Ib Ab].
+    destruct (law_retain D Inv goodb LAW h _ _ _ Gs (I1 I) Rm) as [Ib Ab].
     (* facts of the source that stay in scope hold of b *)
     assert (Keep : forall f, In f (lab_get L (a_id s)) -> incl (cargs f) (a_scope s) -> holds h f b).
     { intros f Hf' Hk. apply (holds_agree h f m1 b).
@@ -232,13 +234,13 @@ Section RunSound.
     destruct (rmapM (mretain D keys) bs) as [bs'| |] eqn:R; cbn in Hf; try discriminate.
     inversion Hf; subst. apply in_map_iff in Hy as [b [<- Hb]]. clear Hf.
     destruct (rmapM_in _ _ _ _ R Hb) as [m1 [Hm1 Rm]].
-    assert (L1 : le m m1 /\ (Inv m -> Inv m1)).
+    assert (L1 : le m m1 /\ (Inv h m -> Inv h m1)).
     { destruct new_keys.
       - inversion B; subst. destruct Hm1 as [<-|[]]. split; [apply le_refl|auto].
       - eapply bind_all_le; eauto. }
     destruct L1 as [L1 I1].
-    destruct (law_retain D Inv goodb LAW _ _ _ Gk (I1 I) Rm) as [Ib Ab].
-    exists cp. split; [exact Nth|]. cbn. intros c Hc.
+    destruct (law_retain D Inv goodb LAW h _ _ _ Gk (I1 I) Rm) as [Ib Ab].
+    split; [exact Ib|]. exists cp. split; [exact Nth|]. cbn. intros c Hc.
     specialize (SA _ Hc). apply andb_true_iff in SA as [Hk Hat]. apply kincl_incl in Hk.
     apply (holds_agree h c m1 b).
     - intros k Hk'. apply Ab. apply Hk. exact Hk'.
